@@ -48,7 +48,7 @@ func Structural(desc string) bool {
 		return false
 	}
 	op := desc[i+1:]
-	return op == "delete" || op == "dup" || op == "swapNext" || strings.HasPrefix(op, "gr")
+	return op == "delete" || op == "dup" || op == "swapNext" || strings.HasPrefix(op, "gr") || strings.HasPrefix(op, "dup2")
 }
 
 // Explore enumerates states, hands parser-accepted ones that belong to this
@@ -98,7 +98,7 @@ func Explore(ctx *core.Ctx, rep *core.Report, opt Options, visit func(*State)) {
 			continue
 		}
 		der.Successors(root, nil, func(desc string, enc []byte) {
-			if opt.NoCompound && (strings.Contains(desc, ":dm") || strings.Contains(desc, ":gr")) {
+			if opt.NoCompound && (strings.Contains(desc, ":dm") || strings.Contains(desc, ":gr") || strings.Contains(desc, ":dup2")) {
 				return
 			}
 			if opt.Only != nil && !opt.Only(desc) {
